@@ -110,7 +110,7 @@ type WorldCfg struct {
 	CtxAware    bool      `json:"ctxAware,omitempty"`   // storage flavour: a call whose context is done when it gets to run returns the context's error
 	TenantKeys  bool      `json:"tenantKeys,omitempty"` // storage flavour: signing keys are per tenant, found through the issuer value of the context
 	Neighbours  bool      `json:"neighbours,omitempty"` // other provider instances (other issuer, other endpoint paths) are constructed in the same process
-	Shadow      bool      `json:"shadow,omitempty"` // compare every undisturbed reply with a re-execution on a fresh provider instance (shadow.go)
+	Shadow      bool      `json:"shadow,omitempty"`     // compare every undisturbed reply with a re-execution on a fresh provider instance (shadow.go)
 }
 
 // Preseed is a stored auth request that exists before the run starts (a
